@@ -103,6 +103,7 @@ Section Whole.
     open_file w (op_db op) = Some odb -> resolved_db NM w op odb = inr d ->
     tokenize (op_fmt op) = Some toks ->
     op_log op <> [] ->
+    op_log op <> dev_null ->
     lookup (op_log op) (w_fs w) = Some (FFile data) ->
     lookup (op_log op) (w_read_fault w) = Some k ->
     let cb := walk_cb NM (mk d) (o_day (w_or w)) toks bt et in
@@ -113,9 +114,10 @@ Section Whole.
      ((has_long_line (firstn k data) /\ st = Failed (EScan true)) \/
       (~ has_long_line (firstn k data) /\ st = Failed (EScan false)))).
   Proof.
-    intros w op mk bt et odb d toks data k Hodb Hres Htok Hne Hfs Hfault cb st.
+    intros w op mk bt et odb d toks data k Hodb Hres Htok Hne Hnd Hfs Hfault cb st.
     assert (Holog : open_file w (op_log op) = Some (OData data (FailAt k))).
-    { unfold open_file, lookup_fs. destruct (op_log op) as [|c p']; [congruence|].
+    { unfold open_file, lookup_fs. rewrite (beq_dev_null_false _ Hnd).
+      destruct (op_log op) as [|c p']; [congruence|].
       rewrite Hfs, Hfault. reflexivity. }
     subst st. rewrite (run_db_log_after_book w op mk bt et odb d toks Hodb Hres Htok _ Holog).
     pose proof (walk_and_finish_error (mk d) (o_day (w_or w)) (o_flush (w_or w)) toks bt et
@@ -140,6 +142,7 @@ Section Whole.
       over-long line, else "read error". *)
   Theorem run_db_log_book_fault : forall w op mk bt et data k olog,
     op_db op <> [] ->
+    op_db op <> dev_null ->
     lookup (op_db op) (w_fs w) = Some (FFile data) ->
     lookup (op_db op) (w_read_fault w) = Some k ->
     open_file w (op_log op) = Some olog ->
@@ -148,9 +151,10 @@ Section Whole.
     (has_long_line (firstn k data) /\ st = Failed (EScan true)) \/
     (~ has_long_line (firstn k data) /\ st = Failed (EScan false)).
   Proof.
-    intros w op mk bt et data k olog Hne Hfs Hfault Holog st.
+    intros w op mk bt et data k olog Hne Hnd Hfs Hfault Holog st.
     assert (Hodb : open_file w (op_db op) = Some (OData data (FailAt k))).
-    { unfold open_file, lookup_fs. destruct (op_db op) as [|c p']; [congruence|].
+    { unfold open_file, lookup_fs. rewrite (beq_dev_null_false _ Hnd).
+      destruct (op_db op) as [|c p']; [congruence|].
       rewrite Hfs, Hfault. reflexivity. }
     subst st. unfold run_db_log. cbn [open_all]. rewrite Hodb, Holog. cbn [option_map].
     unfold resolved_db. rewrite load_db_eq.
